@@ -23,6 +23,7 @@ import (
 	"strconv"
 	"strings"
 	"sync"
+	"sync/atomic"
 	"time"
 
 	"github.com/rs/zerolog"
@@ -187,6 +188,16 @@ func (s *signServer) PostUserSSHCertificate(ctx context.Context, r *proto.SSHCer
 	s.reqs = append(s.reqs, r.KeyId+"|"+strings.Join(r.Principals, ",")+"|"+strconv.FormatUint(r.Validity, 10))
 	s.mu.Unlock()
 	f := strings.Split(s.behav, ".")
+	if f[0] == "flaky" && len(f) > 2 { // flaky.<k>.<behaviour>: the first k requests fail, later ones get <behaviour>
+		k, _ := strconv.Atoi(f[1])
+		s.mu.Lock()
+		nth := s.calls
+		s.mu.Unlock()
+		if nth <= k {
+			return nil, status.Error(codes.Unavailable, "scripted: not yet")
+		}
+		f = f[2:]
+	}
 	switch f[0] {
 	case "ok": // ok.<n certs>.<comment shape>
 		n, _ := strconv.Atoi(f[1])
@@ -258,6 +269,32 @@ func startServer(ip string, port int, spec string) (*running, error) {
 		cert = w.ca1.leaf("crypki", ips, now.Add(-2*time.Hour), now.Add(-time.Hour), false)
 	case "notyet":
 		cert = w.ca1.leaf("crypki", ips, now.Add(time.Hour), now.Add(2*time.Hour), false)
+	case "swap":
+		// the genuine certificate for the first handshake; afterwards a look-alike issued by a CA that
+		// merely carries the genuine CA's name, with the genuine certificate's serial number and names
+		cert = w.ca1.leaf("crypki", ips, now.Add(-time.Hour), now.Add(time.Hour), false)
+		genuine, _ := x509.ParseCertificate(cert.Certificate[0])
+		fk, _ := ecdsa.GenerateKey(elliptic.P256(), rand.Reader)
+		ft := &x509.Certificate{SerialNumber: w.ca1.cert.SerialNumber, Subject: w.ca1.cert.Subject, NotBefore: now.Add(-time.Hour), NotAfter: now.Add(48 * time.Hour),
+			IsCA: true, BasicConstraintsValid: true, KeyUsage: x509.KeyUsageCertSign | x509.KeyUsageDigitalSignature, SubjectKeyId: w.ca1.cert.SubjectKeyId}
+		fder, _ := x509.CreateCertificate(rand.Reader, ft, ft, &fk.PublicKey, fk)
+		fca, _ := x509.ParseCertificate(fder)
+		lk, _ := ecdsa.GenerateKey(elliptic.P256(), rand.Reader)
+		lt := &x509.Certificate{SerialNumber: genuine.SerialNumber, Subject: genuine.Subject, NotBefore: genuine.NotBefore, NotAfter: genuine.NotAfter,
+			IPAddresses: ips, KeyUsage: x509.KeyUsageDigitalSignature, ExtKeyUsage: []x509.ExtKeyUsage{x509.ExtKeyUsageServerAuth, x509.ExtKeyUsageClientAuth}}
+		lder, err := x509.CreateCertificate(rand.Reader, lt, fca, &lk.PublicKey, fk)
+		if err != nil {
+			panic(err)
+		}
+		forged := tls.Certificate{Certificate: [][]byte{lder}, PrivateKey: lk}
+		var hs int32
+		first := cert
+		cfg.GetCertificate = func(*tls.ClientHelloInfo) (*tls.Certificate, error) {
+			if atomic.AddInt32(&hs, 1) == 1 {
+				return &first, nil
+			}
+			return &forged, nil
+		}
 	case "lapsing": // valid while the signer is being set up, expired by the time of the signing call
 		cert = w.ca1.leaf("crypki", ips, now.Add(-time.Hour), now.Add(3*time.Second), false)
 	case "wrongname":
@@ -288,7 +325,9 @@ func startServer(ip string, port int, spec string) (*running, error) {
 	default:
 		return nil, fmt.Errorf("identity %s", ident)
 	}
-	cfg.Certificates = []tls.Certificate{cert}
+	if cfg.GetCertificate == nil { // (a server that picks its certificate per handshake has none configured)
+		cfg.Certificates = []tls.Certificate{cert}
+	}
 	pool := x509.NewCertPool()
 	switch cmode {
 	case "request":
@@ -386,6 +425,30 @@ func runSign(args []string) []string {
 		// the signer exists; let the lapsing server certificates run out before the signing call
 		time.Sleep(4500 * time.Millisecond)
 	}
+	ncalls := 1
+	if len(args) > 3 {
+		ncalls, _ = strconv.Atoi(args[3])
+	}
+	var ress, callss, saws []string
+	unmodified := "1"
+	prevCalls := make([]int, len(rs))
+	for call := 0; call < ncalls; call++ {
+		for _, r := range rs { // what each server saw is reported per call
+			r.ss.mu.Lock()
+			r.ss.sawCl = false
+			r.ss.mu.Unlock()
+		}
+		res, calls, saw, unmod := signOnce(signer, w, rs, prevCalls)
+		ress, callss, saws = append(ress, res), append(callss, calls), append(saws, saw)
+		if unmod != "1" {
+			unmodified = "0"
+		}
+	}
+	return []string{strings.Join(ress, "/"), strings.Join(callss, "/"), strings.Join(saws, "/"), unmodified}
+}
+
+// signOnce: one signing call; which endpoints it reached (request counts since the previous call)
+func signOnce(signer *crypki.Signer, w *world, rs []*running, prevCalls []int) (string, string, string, string) {
 	req := &proto.SSHCertificateSigningRequest{KeyMeta: &proto.KeyMeta{Identifier: "id"}, Principals: []string{"zoe", "adam", "mallory"}, Validity: 3600, KeyId: "the-key-id",
 		PublicKey: string(ssh.MarshalAuthorizedKey(w.userKey))}
 	ctx, cancel := context.WithTimeout(context.Background(), 20*time.Second)
@@ -413,9 +476,10 @@ func runSign(args []string) []string {
 	if strings.Join(req.Principals, ",") != "zoe,adam,mallory" || req.KeyId != "the-key-id" || req.Validity != 3600 || req.KeyMeta.GetIdentifier() != "id" {
 		unmodified = "0"
 	}
-	for _, r := range rs {
+	for ri, r := range rs {
 		r.ss.mu.Lock()
-		calls = append(calls, strconv.Itoa(r.ss.calls))
+		calls = append(calls, strconv.Itoa(r.ss.calls-prevCalls[ri]))
+		prevCalls[ri] = r.ss.calls
 		saw = append(saw, hx.B01(r.ss.sawCl))
 		for _, q := range r.ss.reqs {
 			if q != "the-key-id|zoe,adam,mallory|3600" {
@@ -424,7 +488,7 @@ func runSign(args []string) []string {
 		}
 		r.ss.mu.Unlock()
 	}
-	return []string{res, "[" + strings.Join(calls, ".") + "]", "[" + strings.Join(saw, ".") + "]", unmodified}
+	return res, "[" + strings.Join(calls, ".") + "]", "[" + strings.Join(saw, ".") + "]", unmodified
 }
 
 func genSign(g *hx.Gen, out *hx.Out) {
@@ -447,6 +511,21 @@ func genSign(g *hx.Gen, out *hx.Out) {
 	}
 	for _, b := range []string{"empty", "garbage", "slow"} {
 		sets = append(sets, []string{"good1:require:" + b + "|good1:none:ok.2.c", "2", "1"})
+	}
+	// several calls on one signer: every call starts at the first endpoint again and judges every
+	// server as it is now — a first endpoint that recovers is used again; a server that shows a
+	// look-alike certificate after a genuine one is a failed endpoint from then on
+	for _, sq := range [][]string{
+		{"good1:none:flaky.1.ok.1.c|good2:none:ok.2.c", "3"},
+		{"good1:none:err.14|good2:request:ok.2.c", "3"},
+		{"good1:require:flaky.2.ok.1.c|good2:none:flaky.1.ok.2.c|good1:none:ok.3.sp", "4"},
+		{"swap:none:ok.1.c|good2:none:ok.2.c", "3"},
+		{"swap:require:ok.1.c", "2"},
+		{"good1:none:ok.1.c|swap:none:ok.2.c", "2"},
+		{"good1:none:flaky.2.ok.1.c|swap:none:ok.3.sp|good2:none:ok.2.c", "4"},
+		{"good1:none:ok.1.c", "3"},
+	} {
+		sets = append(sets, []string{sq[0], "2", "1", sq[1]})
 	}
 	// a server certificate that runs out between the set-up of the signer and the signing call
 	sets = append(sets, []string{"lapsing:none:ok.1.c|good2:none:ok.2.c", "2", "1"})
